@@ -429,7 +429,7 @@ UNKNOWN = [(16, 0xCB00), (16, 0xA001 & 0xFFFF), (24, 0x01FEF0), (24, 0xE1FE00)]
 def transaction(draw):
     """One bus transaction by another master: list of (dt_offset, kind, bits, value)."""
     k = draw(st.sampled_from(["plain", "query+answer", "query+silence", "query+error", "twice", "once", "interrupted",
-                              "twice+backward", "twice-other-length", "dt+ext", "dt-alone", "f24", "event", "unknown", "stray-backward", "busok"]))
+                              "twice+backward", "twice+noise+again", "twice-other-length", "dt+ext", "dt-alone", "f24", "event", "unknown", "stray-backward", "busok"]))
     small = draw(st.sampled_from([0.012, 0.02, 0.05, 0.1]))
     if k == "plain":
         return [(0, "forward", 16, draw(st.sampled_from(PLAIN16)))]
@@ -447,6 +447,15 @@ def transaction(draw):
         c = draw(st.sampled_from(TWICE16))
         return [(0, "forward", 16, c), (small, "forward", 24, c)] if draw(st.booleans()) else \
             [(0, "forward", 24, c), (small, "forward", 16, c)]
+    if k == "twice+noise+again":
+        # the repeat is replaced by a backward frame (intact or garbled); the same forward frame follows once more
+        c = draw(st.sampled_from(TWICE16 + [0xFFFE1D]))
+        bits = 24 if c > 0xFFFF else 16
+        noise = (small, "error", 8, 0) if draw(st.booleans()) else (small, "backward", 8, draw(st.integers(0, 255)))
+        t = [(0, "forward", bits, c), noise, (2 * small, "forward", bits, c)]
+        if draw(st.booleans()):
+            t.append((3 * small, "forward", bits, c))
+        return t
     if k in ("twice", "once", "interrupted", "twice+backward"):
         c = draw(st.sampled_from(TWICE16 + [0xFFFE1D]))
         bits = 24 if c > 0xFFFF else 16
